@@ -4,7 +4,7 @@
 P=$1; W=/tmp/wt_$P
 cd $W || exit 2
 [ -f RESULT/patch.diff ] || { echo "no patch"; exit 2; }
-git checkout -q -- src 2>/dev/null; git stash list | grep -q . && git stash drop -q 2>/dev/null
+git checkout -q -- src 2>/dev/null
 rm -f tests/demo_seeded.rs
 git apply RESULT/patch.diff || { echo "patch does not apply"; exit 2; }
 suite=$(cargo nextest run --workspace --no-fail-fast --offline 2>&1 | grep -E "Summary" | tail -1)
